@@ -5,7 +5,7 @@ Definition A0 := TA 0%N.
 (* schedule(h1, w2); start(); the emitter puts event 7; it is dispatched to h1 *)
 Definition tr_deliver : list label :=
   [LCall 0%N (CSchedule 1%N 2%N); LStep A0; LStep A0; LStep A0;
-   LCall 0%N CStart; LOrd A0 [0%nat]; LStep A0; LStep A0; LStep A0; LStep A0; LStep A0;
+   LCall 0%N CStart; LStep A0; LOrd A0 [0%nat]; LStep A0; LStep A0; LStep A0; LStep A0; LStep A0; LStep A0;
    LECheck 0%nat; LEPut 0%nat 7%N; LStep TD; LStep TD; LStep TD; LTurn 1%N []; LStep TD; LStep TD].
 (* ... event 8 is dispatched and h1's callback calls stop() twice *)
 Definition tr_stop_in_callback : list label :=
@@ -19,3 +19,28 @@ Definition tr_shutdown : list label :=
 Definition tr_remove : list label :=
   tr_deliver ++ [LCall 0%N (CRemove 1%N 2%N); LStep A0; LStep A0; LStep A0;
                  LStep TD; LECheck 0%nat; LEPut 0%nat 8%N; LStep TD; LStep TD; LStep TD; LStep TD].
+
+(* The PINNED start() (no lock, init_of false): a second start() removes the running emitter from the set
+   while stop() iterates over it; stop() raises "Set changed size during iteration" before it puts the stop
+   marker; the dispatcher waits in get() forever and observer.join() never returns. *)
+Definition A1 := TA 1%N.
+Definition tr_pinned_deadlock : list label :=
+  [LCall 0%N (CSchedule 1%N 2%N); LStep A0; LStep A0; LStep A0;
+   LCall 0%N CStart; LOrd A0 [0%nat]; LStep A0; LStep A0; LStep A0; LStep A0; LStep A0;
+   LStep TD;
+   LCall 0%N CStart; LOrd A0 [0%nat];
+   LCall 1%N CStop; LStep A1; LStep A1; LOrd A1 [0%nat]; LStep A1;
+   LStep A0;
+   LECheck 0%nat; LEExit 0%nat;
+   LStep A1; LStep A1; LStep A1;
+   LStep A0; LStep A0; LStep A0;
+   LCall 1%N CJoin].
+
+Lemma pinned_deadlock : exists s, reachable_pinned s /\ deadlocked s = true /\ dstop s = true /\
+  cont s A1 = [IJoinDisp; IRet CJoin] /\ dcont s = [DGet] /\ queue s = [] /\
+  In (GRet A1 CStop true) (glog s).
+Proof.
+  destruct (run (init_of false) tr_pinned_deadlock) as [s|] eqn:E; [|vm_compute in E; discriminate].
+  exists s. split; [exists tr_pinned_deadlock; exact E|].
+  vm_compute in E. inversion E; subst. vm_compute. repeat split; auto 20.
+Qed.
